@@ -109,7 +109,7 @@ std::string gen_config(const Profile &p) {
   s += fmt(" ri=%d", pick<int>({{2, 1}, {2, 2}, {2, 4}, {5, 16}, {1, 64}}));
   s += fmt(" mfs=%d", pick<int>({{4, 1 << 20}, {3, 2 << 20}}));
   s += fmt(" comp=%d", uni(0, 1));
-  s += fmt(" bloom=%d", pick<int>({{4, 0}, {4, 10}, {1, 1}, {1, 20}}));
+  s += fmt(" bloom=%d", pick<int>({{4, 0}, {4, 10}, {1, 1}, {1, 4}, {1, 20}}));
   s += " cache=" + pick<std::string>({{4, "default"}, {3, "tiny"}, {2, "zero"}});
   s += fmt(" mof=%d", pick<int>({{3, 1000}, {2, 74}, {1, 10}}));
   s += fmt(" mmap=%d", uni(0, 1));
@@ -206,7 +206,7 @@ std::string gen_op(Profile &p, const std::vector<std::pair<int, OpK>> &weights) 
       p.snaps.clear();
       if (chance(30)) s += fmt(" reuse=%d", uni(0, 1));
       if (chance(20)) s += " cache=" + pick<std::string>({{1, "default"}, {1, "tiny"}, {1, "zero"}});
-      if (chance(20)) s += fmt(" bloom=%d", pick<int>({{1, 0}, {1, 10}}));
+      if (chance(25)) s += fmt(" bloom=%d", pick<int>({{2, 0}, {2, 10}, {1, 1}, {1, 4}, {2, 20}}));   // other bits per key: old filters must still be read with their own probe count
       if (chance(20)) s += fmt(" comp=%d", uni(0, 1));
       if (chance(20)) s += fmt(" mmap=%d", uni(0, 1));
       if (chance(15)) s += fmt(" bs=%d", pick<int>({{1, 1024}, {1, 4096}}));
